@@ -7,7 +7,6 @@ import sys
 
 VERIF = os.path.dirname(os.path.dirname(os.path.abspath(__file__)))
 EQUIV = {
-    "S07-hft-path-executes-always": "equivalent for C09: differs only while a halt is in force, where the statement demands nothing",
     "S09-running-flag-not-reset": "no listed property speaks about is_running in a non-execution session",
     "X01-cycle-check-skips-self": "equivalent: a self-loop is reported one iteration later",
     "A14-arb-acts-when-component-stopped": "outside the statement (C20 says nothing about stopped markets); observed, not judged",
